@@ -11,6 +11,7 @@
 -/
 import UnytModel.DriverBase
 import UnytModel.Testing
+import UnytModel.CompHelperLive
 
 namespace Unyt
 open Unyt.Testing
@@ -124,13 +125,13 @@ def opsC19 : Handler := fun st fields =>
   | ["c19.isclose", a, b, rt, atl] =>
     match parseArg a, parseArg b, fb rt, fb atl with
     | some a, some b, some rt, some atl =>
-      match iscloseHandler a b rt atl with
+      match iscloseHandlerLive a b rt atl with
       | .ok bs => some (st, "ok\t" ++ String.join (bs.map boolStr))
       | .error e => some (st, s!"err\t{e.str}")
     | _, _, _, _ => some (st, "bad-args")
   | ["c19.allclose", a, b, rt, atl] =>
     match parseArg a, parseArg b, fb rt, fb atl with
-    | some a, some b, some rt, some atl => some (st, verdictOut (allcloseHandler a b rt atl))
+    | some a, some b, some rt, some atl => some (st, verdictOut (allcloseHandlerLive a b rt atl))
     | _, _, _, _ => some (st, "bad-args")
   | ["c19.array_equal", a, b] =>
     match parseArg a, parseArg b with
